@@ -4,6 +4,7 @@ import (
 	"context"
 	"encoding/json"
 	"fmt"
+	"io"
 	"math/rand"
 	"strings"
 	"sync"
@@ -11,6 +12,8 @@ import (
 
 	"github.com/gopcua/opcua"
 	"github.com/gopcua/opcua/ua"
+	"github.com/gopcua/opcua/uacp"
+	"github.com/gopcua/opcua/uasc"
 
 	"verifharness/fw"
 	"verifharness/keys"
@@ -241,6 +244,145 @@ func c10ClientSide(c *fw.Ctx, cs c10Case) {
 	mu.Unlock()
 }
 
+// c10BareChannel: a bare server-kind channel whose application keeps calling Receive after an error. The reference
+// client sends requests, then verbatim copies of earlier chunks in runs (ascending order, so that a receiver which
+// forgets where it was after a rejection accepts the second copy), and a copy of its OpenSecureChannel chunk.
+func c10BareChannel(c *fw.Ctx, cs c10Case) {
+	r := rand.New(rand.NewSource(cs.Seed))
+	p := refpeer.PolicyByURI(cs.Policy)
+	bs, err := newBareServer(nil)
+	if err != nil {
+		c.Inconclusive("listen: " + err.Error())
+		return
+	}
+	defer bs.l.Close()
+	sk, ck := keys.Get("b", 2048), keys.Get("a", 2048)
+	cfg := &uasc.Config{SecurityPolicyURI: ua.SecurityPolicyURINone, SecurityMode: ua.MessageSecurityModeNone, Lifetime: 3600000, Certificate: sk.Cert, LocalKey: sk.Key}
+	type accRes struct {
+		sc   *uasc.SecureChannel
+		conn *uacp.Conn
+		err  error
+	}
+	acc := make(chan accRes, 1)
+	go func() {
+		sc, conn, err := bs.accept(cfg, 91, 1, 5)
+		acc <- accRes{sc, conn, err}
+	}()
+	ch, _, err := refpeer.Dial(strings.TrimPrefix(bs.ep, "opc.tcp://"), refpeer.ClientOpts{Sec: refpeer.Security{Policy: p, Mode: cs.Mode, LocalKey: ck.Key, LocalCert: ck.Cert, RemoteCert: sk.Cert}})
+	a := <-acc
+	if err != nil || a.err != nil {
+		c.Inconclusive(fmt.Sprintf("set-up: %v / %v", err, a.err))
+		return
+	}
+	defer ch.Close()
+	defer a.conn.Close()
+	var opnChunk []byte
+	ch.Raw = func(dir string, frame []byte) {
+		if dir == "out" && len(frame) > 3 && string(frame[:3]) == "OPN" && opnChunk == nil {
+			opnChunk = append([]byte{}, frame...)
+		}
+	}
+	var mu sync.Mutex
+	delivered := map[string]int{}
+	errs := 0
+	ctx, cancel := context.WithCancel(context.Background())
+	defer cancel()
+	go func() {
+		for {
+			msg := a.sc.Receive(ctx)
+			if ctx.Err() != nil || msg.Err == io.EOF {
+				return
+			}
+			if msg.Err != nil {
+				mu.Lock()
+				errs++
+				mu.Unlock()
+				if _, ok := msg.Err.(ua.StatusCode); !ok {
+					return
+				}
+				continue // the application goes on receiving after a rejected chunk
+			}
+			if wr, ok := msg.Request().(*ua.WriteRequest); ok && len(wr.NodesToWrite) == 1 {
+				mu.Lock()
+				delivered[wr.NodesToWrite[0].NodeID.StringID()]++
+				mu.Unlock()
+			}
+		}
+	}()
+	ch.Conn.SetReadDeadline(time.Now().Add(10 * time.Second))
+	if _, err := ch.Open(false, 3600000); err != nil {
+		c.Inconclusive("open: " + classOf(err.Error()))
+		return
+	}
+	opnsBefore := 0
+	for _, o := range ch.Log {
+		if o.MsgType == "OPN" {
+			opnsBefore++
+		}
+	}
+	var raws [][]byte
+	fresh := func() {
+		n := len(raws)
+		req := &ua.WriteRequest{NodesToWrite: []*ua.WriteValue{{NodeID: ua.NewStringNodeID(1, fmt.Sprintf("w%d", n)), AttributeID: ua.AttributeIDValue, Value: &ua.DataValue{EncodingMask: 1, Value: ua.MustVariant(int64(n))}}}}
+		req.SetHeader(&ua.RequestHeader{AuthenticationToken: ua.NewTwoByteNodeID(0), Timestamp: time.Now(), RequestHandle: uint32(n), AdditionalHeader: ua.NewExtensionObject(nil)})
+		body, _ := refpeer.EncodeBody(req)
+		raw, _ := ch.SealChunk(nil, "MSG", 'F', ch.TakeSeq(), uint32(100+n), body)
+		ch.WriteRaw(raw)
+		raws = append(raws, raw)
+		cs.Steps = append(cs.Steps, fmt.Sprintf("w%d", n))
+	}
+	for k := 0; k < 5; k++ {
+		fresh()
+	}
+	for round := 0; round < 3; round++ {
+		lo := r.Intn(len(raws) - 1)
+		hi := lo + 2 + r.Intn(len(raws)-lo-1)
+		if hi > len(raws) {
+			hi = len(raws)
+		}
+		cs.Steps = append(cs.Steps, fmt.Sprintf("copies of w%d..w%d back to back", lo, hi-1))
+		for k := lo; k < hi; k++ {
+			ch.WriteRaw(raws[k])
+		}
+		fresh()
+	}
+	if opnChunk != nil {
+		cs.Steps = append(cs.Steps, "copy of the OpenSecureChannel chunk")
+		ch.WriteRaw(opnChunk)
+	}
+	c.Journal(cs.Index, cs)
+	// has a second OpenSecureChannel response been sent?
+	ch.Conn.SetReadDeadline(time.Now().Add(400 * time.Millisecond))
+	for {
+		if _, err := ch.ReadMsg(); err != nil {
+			break
+		}
+	}
+	time.Sleep(50 * time.Millisecond)
+	c.Eval(int64(len(raws)))
+	c.Nontrivial(fmt.Sprintf("bare/%s/%d/%d", p.Name, cs.Mode, cs.Seed))
+	opnsAfter := 0
+	for _, o := range ch.Log {
+		if o.MsgType == "OPN" {
+			opnsAfter++
+		}
+	}
+	mu.Lock()
+	defer mu.Unlock()
+	c.Class("bare-channel:rejections-observed", int64(errs))
+	for n, k := range delivered {
+		if k > 1 {
+			cs.Detail = fmt.Sprintf("request %s was delivered %d times by Receive", n, k)
+			c.Violation("c10:bare-channel-delivered-replayed-chunk:"+modeName(cs.Mode), fmt.Sprintf("%s/%s: %s (history: %v)", p.Name, modeName(cs.Mode), cs.Detail, cs.Steps), cs)
+			return
+		}
+	}
+	if opnsAfter > opnsBefore {
+		cs.Detail = fmt.Sprintf("the copy of the OpenSecureChannel request was answered again (%d OPN responses, %d before the replay)", opnsAfter, opnsBefore)
+		c.Violation("c10:replayed-open-secure-channel-request-handled:"+modeName(cs.Mode), fmt.Sprintf("%s/%s: %s", p.Name, modeName(cs.Mode), cs.Detail), cs)
+	}
+}
+
 func c10Run(c *fw.Ctx) error {
 	n := int64(c.Pick(60, 4000))
 	pols := refpeer.Policies
@@ -253,11 +395,14 @@ func c10Run(c *fw.Ctx) error {
 		if !c.Quick() || i%5 == 0 {
 			pol = pols[r.Intn(len(pols))]
 		}
-		cs := c10Case{Index: i, Side: []string{"server", "server", "client"}[i%3], Policy: pol.URI, Mode: 2 + r.Intn(2), Seed: r.Int63()}
+		cs := c10Case{Index: i, Side: []string{"server", "bare-channel", "client"}[i%3], Policy: pol.URI, Mode: 2 + r.Intn(2), Seed: r.Int63()}
 		c.Journal(i, cs)
-		if cs.Side == "server" {
+		switch cs.Side {
+		case "server":
 			c10ServerSide(c, cs)
-		} else {
+		case "bare-channel":
+			c10BareChannel(c, cs)
+		default:
 			c10ClientSide(c, cs)
 		}
 		c.Class("receiver:"+cs.Side, 1)
@@ -270,7 +415,7 @@ func init() {
 	fw.Register("C10", fw.Spec{
 		Plan: func(tier string) fw.Plan {
 			p := fw.Plan{Batches: 8, TimeoutS: 900, MinNontrivial: 20, Level: "exploration",
-				Rule:        "histories on established Sign / SignAndEncrypt channels: (server) the independent client writes 3-8 unique values to a node of the real server and, at random positions, re-sends a verbatim copy of an earlier Write chunk; oracle: the node value (inspected in-process) never becomes a replayed value again and no request id is answered twice; a dropped connection after a replay is accepted; (client) the scripted server answers 12 Reads with distinct markers and re-sends copies of earlier response chunks before answering; oracle: every call returns the marker sealed for it, none twice; distinct = histories that contained a replay",
+				Rule:        "histories on established Sign / SignAndEncrypt channels: (server) the independent client writes 3-8 unique values to a node of the real server and, at random positions, re-sends a verbatim copy of an earlier Write chunk; oracle: the node value (inspected in-process) never becomes a replayed value again and no request id is answered twice; a dropped connection after a replay is accepted; (bare channel) a server-kind channel whose application keeps calling Receive after rejections gets runs of copies in ascending order and a copy of the OpenSecureChannel chunk; oracle: no request delivered twice, no second OpenSecureChannel response; (client) the scripted server answers 12 Reads with distinct markers and re-sends copies of earlier response chunks before answering; oracle: every call returns the marker sealed for it, none twice; distinct = histories that contained a replay",
 				Assumptions: []string{"the replayed chunk is byte-identical to one the peer accepted before (same sequence number, same token)"}}
 			if tier == "thorough" {
 				p.Batches, p.TimeoutS, p.MinNontrivial = 16, 3000, 1500
@@ -284,9 +429,12 @@ func init() {
 				return err
 			}
 			cs.Steps, cs.Detail = nil, ""
-			if cs.Side == "server" {
+			switch cs.Side {
+			case "server":
 				c10ServerSide(c, cs)
-			} else {
+			case "bare-channel":
+				c10BareChannel(c, cs)
+			default:
 				c10ClientSide(c, cs)
 			}
 			return nil
